@@ -212,9 +212,12 @@ def history_part(ctx):
         n = rng.choice([0, 1, 3, 120])
         data = typed_table(rng, n) or [{'i': 0, 's': 'only', 'n': decimal.Decimal('1'), 'd': datetime.date(2020, 1, 1),
                                         'dt': datetime.datetime(2020, 1, 1), 'l': [], 'o': {}, 'b': True, 'nul': None}]
-        ops = [rng.choice(['run', 'run', 'delete', 'delete-some']) for _ in range(rng.randint(2, 6))]
+        ops = [rng.choice(['run', 'run', 'delete', 'delete-some', 'failed-run']) for _ in range(rng.randint(2, 6))]
         ops[0] = 'run'
         executed = []
+        # a run of the history may fail while the rows of some resource stream through the checkpoints (the step behind the
+        # last checkpoint raises): whatever it leaves behind, every later run returns what the first run returned
+        fault = {'armed': False, 'res': 0, 'row': 0}
 
         in_place = rng.random() < 0.6
         # "running it again": either a new Flow is built for every run, or the very same Flow object is run again
@@ -222,11 +225,19 @@ def history_part(ctx):
         if same_object:
             in_place = False        # the sources are lists owned by the flow: a step that edits them in place would change its own input
 
+        def tripwire(res, ri):
+            for j, r in enumerate(res):
+                if fault['armed'] and ri == fault['res'] and j == fault['row']:
+                    raise RuntimeError('a step behind the checkpoints failed')
+                yield r
+
         def step(k):
             def f(package):
                 executed.append(k)
                 yield package.pkg
-                for res in package:
+                for ri, res in enumerate(package):
+                    if k == n_cp:
+                        res = tripwire(res, ri)
                     if in_place:
                         yield bump(res)
                     else:
@@ -242,6 +253,12 @@ def history_part(ctx):
         # 1-3 resources; some of them empty (first, middle or last) when they reach the checkpoint
         nres = rng.choice([1, 1, 2, 3, 3])
         empties = [rng.random() < 0.4 for _ in range(nres)]
+        # every fourth history, systematically: the checkpoints are written, removed, a run fails while the *last* resource
+        # streams, and the flow is run again
+        systematic_failure = h % 4 == 3
+        if systematic_failure:
+            empties = [False] * nres
+            ops = ['run', 'delete', 'failed-run', 'run', 'run']
 
         def make_flow():
             links = [copy.deepcopy(data) for _ in range(nres)]
@@ -264,6 +281,21 @@ def history_part(ctx):
             if op == 'delete-some':
                 victim = rng.randrange(n_cp)
                 shutil.rmtree(os.path.join(base, 'cp%d' % victim), ignore_errors=True)
+                continue
+            if op == 'failed-run':
+                live = [ri for ri, emp in enumerate(empties) if not emp]
+                if not live:
+                    continue
+                fault.update(armed=True, res=live[-1] if systematic_failure else rng.choice([live[-1], rng.choice(live)]), row=rng.randrange(len(data)))
+                try:
+                    with quiet():
+                        (the_flow if same_object else make_flow()).results()
+                    rep.fail('history:failing-run-returned-normally', hist_case, {'fault': dict(fault)})
+                except Exception:  # noqa
+                    pass
+                fault['armed'] = False
+                import gc
+                gc.collect()          # abandoned generators are finalised now, as they would be at the latest when the process ends
                 continue
             present = [c for c in range(n_cp) if os.path.exists(os.path.join(base, 'cp%d' % c, 'stream.ndjson'))]
             del executed[:]
